@@ -36,6 +36,7 @@ def load_units() -> List[Any]:
 
 _ENGINE = None
 _UNITS: List[Any] = []
+_ASSUMED: List[str] = []
 
 
 def _run_unit(arg: Tuple[int, str]) -> Dict[str, Any]:
@@ -170,7 +171,12 @@ def main(argv: Optional[List[str]] = None) -> int:
     except Exception:
         print("checker error while loading contracts:\n" + traceback.format_exc())
         return 3
-    sel = [i for i, u in enumerate(_UNITS) if prop in u.props and (a.unit is None or a.unit in u.name)]
+    sel = [i for i, u in enumerate(_UNITS) if prop in u.props and (a.unit is None or a.unit in u.name)
+           and not getattr(u, "assumed", False)]
+    global _ASSUMED
+    _ASSUMED = [f"ASSUMED contract of {u.target}: " + "; ".join(e for _, e in u.ensures)
+                + (f" [{u.justification}]" if u.justification else "")
+                for u in _UNITS if getattr(u, "assumed", False) and prop in u.props]
     if not sel:
         print(f"no units for property {prop}")
         return 3
@@ -348,7 +354,7 @@ def report(prop: str, tier: str, results: List[Dict[str, Any]], wall: float, ver
             "explanation": NOTES.get(prop, ""),
             "exhaustive": False,
         },
-        "assumptions": assumptions,
+        "assumptions": assumptions + _ASSUMED,
         "wall_s": round(wall, 2),
         "violations": len(violations),
     }
